@@ -830,7 +830,7 @@ def _race(jobs, hard_s):
 def _discharge1(o, inputs, opts, scale=None):
     """Returns dict(verdict=unsat|sat|unknown, backend, seconds, model).  Back ends raced: z3 (default smt),
     z3 nlsat tactic, cvc5; a first quick attempt uses the path condition without axioms (fewer hypotheses)."""
-    tmo = int(opts.get("timeout_ms", 20000))
+    tmo = int(opts.get("timeout_ms", 45000))
     fml = list(o.axioms) + list(o.pc) + [z3.Not(o.goal)]
     goal_s = z3.simplify(o.goal)
     if z3.is_true(goal_s):
